@@ -2,10 +2,13 @@
    Statements only.  The model is Lib/UFModel.v (UncompressedFile method by method, as written);
    its wait predicates and notifications are proved equal to the terms translated from the source
    on every run (C15_guards_are_code); the rest of the tie is the `uf` correspondence harness.
-   PARTIAL: the byte-order statement for arbitrary histories (refinement to a flat byte queue,
-   uf_refines) is not a theorem yet — named C15_fifo_partial in the evidence — and is decided by
-   the correspondence run against the reference byte queue. *)
-From VB Require Import Base IR Sem Mon UFModel UFFacts.
+   The byte-order statement is C15_refines: for every history the property describes (any length,
+   any chunking, any default container size 1..2^32-1) the model behaves as the flat byte queue of
+   Lib/UFSpec.v — same enabledness, same bytes delivered, same accessor values after every call —
+   and C15_fifo / C15_buf_is_writes say what that byte queue guarantees.  Histories the byte queue
+   rejects (bq_step = None: a read of unwritten or possibly-dropped bytes, container size 0) are
+   outside the property; the correspondence run still compares model and code on them. *)
+From VB Require Import Base IR Sem Mon UFModel UFFacts UFSpec UFRefine.
 From VB Require Import Sync SyncDefs SyncEq.
 Local Open Scope Z_scope.
 
@@ -67,3 +70,40 @@ Theorem C15_abort_releases : forall s n,
   uf_read_guard s' n = true /\ uf_write_guard s' = true /\ uf_writec_guard s' = true /\ In CVU_tellg notes /\ In CVU_tellp notes.
 Proof. exact uf_abort_releases. Qed.
 Print Assumptions C15_abort_releases.
+
+(* ---- the in-memory stream is a byte FIFO for any chunking: refinement to the flat byte queue ---- *)
+Theorem C15_refines : forall ops q' outs, bq_run bq_init ops = Some (q', outs) ->
+  exists s', uf_run uf_init ops = Some (s', outs) /\ uf_obs s' = bq_obs q'.
+Proof. exact uf_refines. Qed.
+Print Assumptions C15_refines.
+
+Theorem C15_refines_prefix : forall ops1 ops2 q' outs, bq_run bq_init (ops1 ++ ops2) = Some (q', outs) ->
+  exists q1 outs1 s1, bq_run bq_init ops1 = Some (q1, outs1) /\ uf_run uf_init ops1 = Some (s1, outs1) /\ uf_obs s1 = bq_obs q1.
+Proof. exact uf_refines_prefix. Qed.
+Print Assumptions C15_refines_prefix.
+
+(* one step, from any related pair of states (not only those reachable from the initial one) *)
+Theorem C15_refine_step : forall s q o q' out, R s q -> bq_step q o = Some (q', out) ->
+  uenabled s o = true /\ exists s', ustep s o = Some (s', out) /\ R s' q'.
+Proof. exact refine_step. Qed.
+Print Assumptions C15_refine_step.
+
+(* what the byte queue guarantees: its string is everything written, in order ... *)
+Theorem C15_buf_is_writes : forall ops q q' outs, bq_run q ops = Some (q', outs) ->
+  q_buf q' = q_buf q ++ concat (map wbytes ops).
+Proof. exact bq_buf_is_writes. Qed.
+Print Assumptions C15_buf_is_writes.
+
+(* ... and without seeks the reads together deliver one contiguous stretch of it, however cut *)
+Theorem C15_fifo : forall ops q q' outs, 0 <= q_hor q -> bq_run q ops = Some (q', outs) -> existsb is_seek ops = false ->
+  q_g q <= q_g q' /\ concat outs = slice (q_g q) (q_g q' - q_g q) (q_buf q ++ concat (map wbytes ops)).
+Proof. exact bq_fifo. Qed.
+Print Assumptions C15_fifo.
+
+(* non-vacuity: a history with writes across container boundaries, an appended container, a closed
+   container, drops and a backward seek is accepted by the byte queue *)
+Example C15_refines_nonvacuous :
+  match bq_run bq_init [USetDcs 4; UWrite [1;2;3]; UNext; UWriteC [4;5]; UWrite [6;7;8;9;10]; URead 4; USeekg (-1); UDrop; URead 7; UDrop; USetFileSize 10; URead 1] with
+  | Some (q, outs) => concat outs = [1;2;3;4;4;5;6;7;8;9;10] /\ q_g q = 10 /\ q_rd q = 6
+  | None => False end.
+Proof. vm_compute. repeat split; reflexivity. Qed.
